@@ -323,17 +323,27 @@ def r01d(ctx):
         for n in walk_no_nested(f.node):
             if not isinstance(n, ast.If):
                 continue
-            keep = [c for s in n.body for c in ast.walk(s) if isinstance(c, ast.Call) and call_name(c) == "_set_repeated"]
-            drop = [c for s in n.orelse for c in ast.walk(s) if isinstance(c, ast.Call) and call_name(c) == "delete"]
-            keep_direct = [c for c in keep if c in [x.value for x in n.body if isinstance(x, ast.Expr)]]
+            from ..paths import if_arms
+            t, body_t, body_f = if_arms(n)
+            flipped = False
+            keep = [c for s in body_t for c in ast.walk(s) if isinstance(c, ast.Call) and call_name(c) == "_set_repeated"]
+            keep_direct = [c for c in keep if c in [x.value for x in body_t if isinstance(x, ast.Expr)]]
             if not keep_direct:
-                continue
-            t = n.test
+                # the keeping arm may be written as the else arm of the opposite comparison (`if k < 1: delete else: keep`)
+                keep = [c for s in body_f for c in ast.walk(s) if isinstance(c, ast.Call) and call_name(c) == "_set_repeated"]
+                keep_direct = [c for c in keep if c in [x.value for x in body_f if isinstance(x, ast.Expr)]]
+                if not keep_direct:
+                    continue
+                body_t, body_f, flipped = body_f, body_t, True
+            drop = [c for s in body_f for c in ast.walk(s) if isinstance(c, ast.Call) and call_name(c) == "delete"]
             kv = ast.unparse(keep_direct[0].args[0]) if keep_direct[0].args else "?"
             ok = False
             if isinstance(t, ast.Compare) and len(t.ops) == 1 and ast.unparse(t.left) == kv and isinstance(t.comparators[0], ast.Constant):
                 c = t.comparators[0].value
-                ok = (isinstance(t.ops[0], ast.GtE) and c == 1) or (isinstance(t.ops[0], ast.Gt) and c == 0)
+                if not flipped:
+                    ok = (isinstance(t.ops[0], ast.GtE) and c == 1) or (isinstance(t.ops[0], ast.Gt) and c == 0)
+                else:  # the test selects the deleting arm: k < 1  /  k <= 0
+                    ok = (isinstance(t.ops[0], ast.Lt) and c == 1) or (isinstance(t.ops[0], ast.LtE) and c == 0)
             ctx.instance("R01d", f"{f.file}:{f.ident}", f"`{norm(t, 40)}` keeps the item with _set_repeated({kv})" + (" else deletes it" if drop else ""),
                          ok=ok, nontrivial=True, line=n.lineno)
             if not ok:
@@ -425,17 +435,19 @@ class AffEval:
                     self.env[s.targets[0].id] = v
             elif isinstance(s, ast.If):
                 # `if odf_idx > 0: before = map[odf_idx-1] else: before = -1`: the else arm is the S == 0 instance of the then arm
+                from ..paths import if_arms
+                core, body_t, body_f = if_arms(s)
                 a = AffEval(self.f, self.roles)
                 a.env = dict(self.env)
-                a.assign_all(s.body)
+                a.assign_all(body_t)
                 b = AffEval(self.f, self.roles)
                 b.env = dict(self.env)
-                b.assign_all(s.orelse)
+                b.assign_all(body_f)
                 for k in set(a.env) | set(b.env):
                     va, vb = a.env.get(k), b.env.get(k)
                     if va is not None and vb is not None and va == vb:
                         self.env[k] = va
-                    elif va is not None and vb is not None and self._idx_positive(s.test) \
+                    elif va is not None and vb is not None and self._idx_positive(core) \
                             and not vb.d and va.d == {"S": 1} and va.c == vb.c:
                         self.env[k] = va  # vb is va at S = 0
                     elif k in self.env and (va != self.env.get(k) or vb != self.env.get(k)):
